@@ -2,7 +2,7 @@
     handle_renamenx, commands/strings.rs, and the engine.rs functions they call
     (after the repairs 3f1bb0a, 9f58b0e, 6d37cd4, b7ebfaa, 7e7b351).
     Each handler: [now -> db -> parts -> reply * db], parts = whole command. *)
-From Ferrous Require Import Base.Bytes Model.Resp Model.Types Model.Glob.
+From Ferrous Require Import Base.Bytes Generated Model.Resp Model.Types Model.Glob.
 Open Scope Z_scope.
 
 (** ---- engine.rs ---- *)
@@ -15,6 +15,26 @@ Definition index_del (d : db) (k : bytes) : db :=
   {| d_data := d_data d; d_index := aremove k (d_index d) |}.
 Definition del_entry (d : db) (k : bytes) : db :=
   {| d_data := aremove k (d_data d); d_index := d_index d |}.
+
+(** ---- lazy expiry before dispatch (engine.rs remove_if_expired / expire_if_due /
+    expire_due_keys / expire_before_command, bdd75e8) ---- *)
+(** drop [k] if the deadline stored with its value has passed; removed keys are collected
+    (they are what WATCHers are told) *)
+Definition purge_key (now : Z) (dr : db * list bytes) (k : bytes) : db * list bytes :=
+  match get_entry (fst dr) k with
+  | Some e => if expired now e then (index_del (del_entry (fst dr) k) k, k :: snd dr) else dr
+  | None => dr
+  end.
+(** the keys the deadline index reports as due *)
+Definition due_keys (now : Z) (d : db) : list bytes := map fst (filter (fun kt => snd kt <=? now) (d_index d)).
+Definition purge_due (now : Z) (dr : db * list bytes) : db * list bytes :=
+  fold_left (purge_key now) (due_keys now (fst dr)) dr.
+(** every bulk-string argument after the command name *)
+Definition lazy_args (parts : list frame) : list bytes :=
+  flat_map (fun f => match f with FBulk b => [b] | _ => [] end) (tl parts).
+Definition expire_before (now : Z) (d : db) (name : bytes) (parts : list frame) : db * list bytes :=
+  let dr := if lazy_expires_every_arg then fold_left (purge_key now) (lazy_args parts) (d, []) else (d, []) in
+  if bmem name lazy_keyspace_commands then purge_due now dr else dr.
 
 (** largest TTL (ms) whose deadline is representable: Instant::now() + d must
     not overflow i64 seconds; uptime assumed below 2^40 s (DESIGN.md C06) *)
@@ -293,14 +313,14 @@ Definition h_ttl (now : Z) (d : db) (parts : list frame) : frame * db :=
       | None => (r_int (if eng_exists now d k then -1 else -2), d)
       end
   end.
-(** PTTL: an expired unswept entry answers 0 *)
+(** PTTL: an expired unswept entry answers 0; the millisecond count saturates at i64::MAX *)
 Definition h_pttl (now : Z) (d : db) (parts : list frame) : frame * db :=
   if negb (nparts parts =? 2) then (r_err, d) else
   match nth_arg parts 1 with
   | None => (r_err, d)
   | Some k =>
       match eng_ttl now d k with
-      | Some rem => (r_int rem, d)
+      | Some rem => (r_int (Z.min rem i64_max), d)
       | None => (r_int (if eng_exists now d k then -1 else -2), d)
       end
   end.
@@ -406,12 +426,14 @@ Definition h_strlen (d : db) (parts : list frame) : frame * db :=
       end
   end.
 
-(** engine.rs getrange after 9f58b0e: signed normalisation *)
+(** engine.rs getrange after 9f58b0e + the Redis-normalisation follow-up *)
 Definition getrange_bytes (b : bytes) (start stop : Z) : bytes :=
   let n := len b in
+  if (start <? 0) && (stop <? 0) && (stop <? start) then [] else
   let s := if start <? 0 then Z.max 0 (n + start) else start in
-  let e := if stop <? 0 then n + stop else Z.min stop (n - 1) in
-  if (e <? s) || (n <=? s) then [] else zfirstn (e - s + 1) (zskipn s b).
+  let e0 := if stop <? 0 then Z.max 0 (n + stop) else stop in
+  let e := Z.min e0 (n - 1) in
+  if (n =? 0) || (e <? s) then [] else zfirstn (e - s + 1) (zskipn s b).
 
 Definition h_getrange (d : db) (parts : list frame) : frame * db :=
   if negb (nparts parts =? 4) then (r_err, d) else
@@ -495,10 +517,14 @@ Definition h_type (d : db) (parts : list frame) : frame * db :=
               end
   end.
 
-(** rename: moves the entry (value and stored deadline); neither index entry moves *)
+(** rename: moves the entry (value and stored deadline) and, since 10c8230, its entry in the
+    deadline index: removed for the old name, set or cleared for the new one *)
 Definition eng_rename (d : db) (old new : bytes) : bool * db :=
   match get_entry d old with
-  | Some e => (true, put_entry (del_entry d old) new e)
+  | Some e =>
+      let d1 := index_del (del_entry d old) old in
+      let d2 := match e_exp e with Some t => index_set d1 new t | None => index_del d1 new end in
+      (true, put_entry d2 new e)
   | None => (false, d)
   end.
 Definition h_rename (d : db) (parts : list frame) : frame * db :=
